@@ -198,6 +198,7 @@ PROPS = {
             J("par2", "C03_verify_two", bound="2 files of 4 and 5 bytes, 2 blocks, per-file damage or files swapped"),
             J("par2", "C03_verify_arbitrary", bound="1 file of 4/5 bytes, arbitrary current content"),
             J("par2", "C16_locmap", must_reach=["hit"], bound="the real checksumShardLocationMap.put/get with 2..3 registered slices of 8 symbolic bytes, arbitrary (data-independent) 32-bit CRC values incl. equal CRCs with different content, one symbolic query window"),
+            J("par2", "C06_volume_names", bound="2 files, blocks 0..2 spread over 1..3 volume files named s.<anything>.par2 (spaces, extra dots)"),
             J("par2", "C03_verify_sym", tier="thorough", bound="1 file of 4/5 fully symbolic bytes, 6 structured damage kinds (1 symbolic damage byte)", timeout=3000),
         ],
     ),
@@ -343,11 +344,27 @@ def replay_c20(cex, scratch, repo, goenv):
                 state = "broken" if outcome == 2 else "intact" if unusable == 0 else "repairable" if unusable <= usable else "unrepairable"
             else:
                 state = ["intact", "unrepairable", "broken"][outcome]
-            if state in ("repairable", "unrepairable"):
+            if lower == "verify" and state in ("repairable", "unrepairable"):
+                # realise the modelled counts: `unusable` of the two one-slice files lost,
+                # exactly `usable` of the two recovery blocks left
+                import re
+                for n in ("a", "b")[:max(1, min(2, unusable))]:
+                    os.remove(os.path.join(d, sub + n))
+                def blocks(v):
+                    mm = re.search(r"\+(\d+)\.par2$", v)
+                    return int(mm.group(1)) if mm else 1
+                left = sum(blocks(v) for v in vols)
+                for v in sorted(vols, reverse=True):
+                    if left - blocks(v) >= usable:
+                        os.remove(v)
+                        left -= blocks(v)
+                if left != usable:
+                    return dict(error="cannot leave exactly %d recovery blocks (volumes: %s)" % (usable, [os.path.basename(v) for v in vols]))
+            elif state in ("repairable", "unrepairable"):
                 os.remove(os.path.join(d, sub + "a"))
-            if state == "unrepairable":
-                for v in vols:
-                    os.remove(v)
+                if state == "unrepairable":
+                    for v in vols:
+                        os.remove(v)
             if state == "broken":
                 open(os.path.join(d, fname), "r+b").truncate(10)
             want = {"intact": (0,), "repairable": (1,) if lower == "verify" else (0,), "unrepairable": (2,), "broken": "failure"}[state]
